@@ -249,7 +249,7 @@ def _cp_req(c):
                 bsig(h, sv) == sig_of_fn(h.fld(ref(sv), '__fn_or_cls__')))
 
 
-def copy_post(c):
+def copy_post(c, cls_of_result=None):
   h0, h = c.old, c.heap
   sv = c['self']
   s = ref(sv)
@@ -265,7 +265,7 @@ def copy_post(c):
   tset = lambda hh, T, key: hh.hasarr(ref(hh.dget(ref(T), key)))
   tagged0 = lambda key: z3.And(h0.has(ref(Tg0), key), nonempty_set(h0, h0.dget(ref(Tg0), key)))
   return z3.And(
-      is_VRef(res), r >= h0.alloc, h.cls(r) == h0.cls(s),
+      is_VRef(res), r >= h0.alloc, h.cls(r) == (h0.cls(s) if cls_of_result is None else cls_of_result),
       # the copy satisfies the representation invariant, so every edit contract applies to it
       BInv(h, res), store_nvar(bsig(h0, sv), h.hasarr(A)) == store_nvar(bsig(h0, sv), has0),
       bsig(h, res) == sig_of_fn(h.fld(r, '__fn_or_cls__')),
@@ -450,4 +450,43 @@ contract(
          'following the i-th path element of b.__path_elements__() from b yields exactly (is) the '
          'i-th value of b.__flatten__() — the (value, path) pairs a traversal reports for the '
          'children of a Buildable are sound; nothing that existed before is modified',
+)
+
+
+# --- casting.cast (C07): a flatten / unflatten copy with another Buildable class -------------------------
+from pyvc import contract as _C2          # noqa: E402
+from pyvc.state import OpaqueContainer     # noqa: E402
+import contracts.selectors                 # noqa: E402,F401  (dynamic issubclass contract)
+
+FCAST = 'fiddle/_src/casting.py'
+_C2.MODULE_GLOBALS[FCAST] = {'_SUPPORTED_CASTS': OpaqueContainer('_SUPPORTED_CASTS')}
+
+
+def _cast_req(c):
+  h = c.old
+  nt = c['new_type']
+  bc = type(c)({'self': c['buildable']}, h, h)
+  return z3.And(is_VRef(nt), is_type_obj(ref(nt)), cls_in(type_cid(nt), 'Buildable'),
+                isref(h, c['buildable'], 'Buildable'), _cp_req(bc))
+
+
+def _cast_post(c):
+  """As copy.copy, except that the class of the result is new_type."""
+  c2 = type(c)({'self': c['buildable']}, c.old, c.heap, result=c.result)
+  return copy_post(c2, cls_of_result=type_cid(c['new_type']))
+
+
+contract(
+    'casting.cast', FCAST, 'cast',
+    requires=_cast_req, ensures=_cast_post,
+    may_raise=('ValueError', 'TypeError'),
+    calls={'issubclass': 'builtin.issubclass_dyn'},
+    writes=('__fn_or_cls__', '__arguments__', '__signature_info__', '__argument_tags__',
+            '__argument_history__', 'signature', 'has_var_keyword', '_var_positional_start'),
+    props=('C07',),
+    note='fdl.cast(new_type, buildable), new_type a Buildable class (also the same class): a fresh '
+         'instance of new_type with the callable, signature, argument store (fresh dict, shared '
+         'values), tag sets and history lists (fresh objects, same members) of buildable; buildable '
+         'and everything reachable from it is unchanged (frame); whether the pair of types is in the '
+         'registry of supported casts only decides about a warning',
 )
